@@ -307,9 +307,38 @@ def foreach_search(ctx):
 
 
 def run(ctx):
+    """The C01 check = the loop/scheduler part (run_rest) + the LockLessMultiReadPipe part (props/C01/pipe_check.py: run_pipe).
+    One Coq project (coq/C01/_CoqProject) and one coq_check carry both; after it the pipe part (extraction, harness builds,
+    sequential differential, wrap-zone replay, stress, model exploration: subprocess-heavy) runs in a thread with a recording
+    stand-in for ctx (pipe_check.PipeCtx) and is merged into ctx at the end, in this thread."""
+    import pipe_check
     handoff_findings(ctx)
     regenerate_src(ctx)
-    res = ctx.coq_check(("Properties.v", "PropertiesSrc.v"))
+    pipe_check.regenerate_facts(ctx)
+    res = ctx.coq_check(("Properties.v", "PropertiesSrc.v", "PropertiesPipe.v", "PropertiesPipeFacts.v"))
+    pipe_thms = vlib.theorem_names(open(os.path.join(ctx.coqdir, "PropertiesPipeFacts.v")).read())
+    if not all(res.get(n) for n in pipe_thms):
+        # coqc stops at the first failing obligation of the file, all of them are then counted as broken: name the first one first
+        ctx.broken.insert(0, "LockLessMultiReadPipe: the instruction tables / facts derived from the working tree's source no longer equal the "
+                             "model's (coq/C01/PropertiesPipeFacts.v); coqc stopped at %s" % (pipe_check.first_failing_fact(ctx) or "?"))
+    pctx = pipe_check.PipeCtx(ctx)
+    with ThreadPoolExecutor(max_workers=1) as pex:
+        fut = pex.submit(pipe_check.run_pipe, pctx, True, False, True, True, res)
+        try:
+            run_rest(ctx, {k: v for k, v in res.items() if k not in pipe_thms})
+        finally:
+            try:
+                fut.result(timeout=3600)
+            except Exception as e:      # fail closed
+                import traceback
+                ctx.log("pipe part raised:\n" + traceback.format_exc()[-2000:])
+                ctx.broken.append("pipe part of the check raised %s: %s" % (type(e).__name__, e))
+            pctx.merge()
+    if ctx.thorough():
+        ctx.coq_thorough_chk(["C01.Properties", "C01.PropertiesSrc", "C01.PropertiesPipe", "C01.PropertiesPipeFacts"])
+
+
+def run_rest(ctx, res):
     ctx.foreach_suspects = []
     if not all(res.values()):
         explain_src_failure(ctx)
@@ -567,8 +596,9 @@ def run(ctx):
         "(additional TSan builds of the TBB and OpenMP harnesses run the same value oracle in the thorough tier)",
         "TBB (tbb::parallel_for) and the OpenMP runtime (#pragma omp parallel for schedule(dynamic)) are oracles: their contract 'runs [0,n) once each "
         "and joins' is exercised by the harness, not proved",
-        "LockLessMultiReadPipe is modelled as a bag with free write failure (its CAS protocol 'a slot is handed to exactly one reader' is not verified; "
-        "a duplicate hand-out would show in the harness as an index executed twice)",
+        "in the scheduler machine (Model.v) LockLessMultiReadPipe appears as a bag with free write failure; that contract is what the pipe part "
+        "proves of the pipe's own micro-step model (Pipe.v / PropertiesPipe.v: hand-off of every written item to exactly one claimant, for every "
+        "interleaving) — the two models are composed by this shared contract, not by a single refinement proof",
         "memory visibility at the join is checked at run time only, by value: plain unsynchronised reads right after return (also with a slow last "
         "index).  TSan cannot judge it here: enkiTS synchronises through volatile + compiler barriers, and the installed libgomp / libtbb are not "
         "TSan-instrumented (their join is invisible to TSan, which then reports races on a correct tree); TSan reports are counted in the thorough tier, not judged"]
@@ -577,5 +607,3 @@ def run(ctx):
         "the ++m_RunningCount / ExecuteRange / --m_RunningCount sequence of the pipe-full branch is one model step (rc is only transiently higher "
         "in the code, which can only delay the waiter's exit)",
         "nested task sets share the pipes; the model keeps one bag of queued pieces per task set (frame theorem enki_nested)"]
-    if ctx.thorough():
-        ctx.coq_thorough_chk(["C01.Properties", "C01.PropertiesSrc"])
